@@ -29,5 +29,5 @@ func (in *Interp) harnessIntrinsic2(g *Goroutine, name string, c *callCtx) (Valu
 		}
 		return in.attrString(g, v), irDone, true
 	}
-	return nil, 0, false
+	return in.harnessTime(g, name, c)
 }
